@@ -22,6 +22,9 @@ struct Built {
     size: Option<WRes>,
     write: WRes,
     bytes: Vec<u8>,
+    /// `write_into_unchecked` on a buffer one word longer than announced (the length field follows
+    /// the buffer): Some(Ok(image)) / Some(Err(())) when it unwound / None when not applicable
+    unchecked: Option<Result<Vec<u8>, ()>>,
 }
 
 fn build_and_write(plan: &Plan, key: u64) -> Built {
@@ -52,7 +55,21 @@ fn build_and_write_into(plan: &Plan, key: u64, probes: u64, ctors: u64, fill: u8
             _ => 0,
         };
         buf.truncate(used);
-        Built { size, write, bytes: buf }
+        let unchecked = match (&size, &write) {
+            (Some(WRes::Ok(n)), WRes::Ok(_)) if *n >= 4 && *n <= 4096 && n % 4 == 0 => {
+                let mut big = vec![fill; n + 4];
+                match crate::guard::guarded(|| c.write_unchecked(&mut big)) {
+                    Ok(Some(w)) => {
+                        big.truncate(w.min(n + 4));
+                        Some(Ok(big))
+                    }
+                    Ok(None) => None,
+                    Err(_) => Some(Err(())),
+                }
+            }
+            _ => None,
+        };
+        Built { size, write, bytes: buf, unchecked }
     })
 }
 
@@ -286,6 +303,24 @@ fn run_case(spec: &Spec, tape: &mut Tape, key_canon: u64, key_var: u64) -> Resul
         let i = a.bytes.iter().zip(b.bytes.iter()).position(|(x, y)| x != y).unwrap_or(a.bytes.len().min(b.bytes.len()));
         run.violation = Some((format!("bytes_differ@{kind}"), format!("first difference at byte {i}: canonical {} vs history-built {}", hex(&a.bytes), hex(&b.bytes))));
         return Ok(run);
+    }
+    // the unchecked writer with a longer buffer: the same builder reached another way, or the
+    // packet-builder wrapper, must do what the bare canonical builder does (a compound slices the
+    // buffer per member, so it is not comparable there)
+    if wrap <= 1 && !matches!(spec, Spec::Compound { .. }) {
+        match (&a.unchecked, &b.unchecked) {
+            (Some(Ok(x)), Some(Ok(y))) => {
+                if !same_bytes(&spec, x, y, 0) {
+                    run.violation = Some((format!("unchecked_bytes_differ@{kind}"), format!("write_into_unchecked into {} bytes: canonical {} vs history-built {}", x.len().max(y.len()), hex(x), hex(y))));
+                    return Ok(run);
+                }
+            }
+            (Some(Ok(_)), Some(Err(()))) | (Some(Err(())), Some(Ok(_))) => {
+                run.violation = Some((format!("unchecked_panic_differs@{kind}"), "write_into_unchecked into a longer buffer unwinds for only one of the two builds".into()));
+                return Ok(run);
+            }
+            _ => {}
+        }
     }
     if matches!(a.write, WRes::Ok(_)) {
         let mut applicable = false;
